@@ -74,7 +74,9 @@ Definition WriteJSON (p : string) (b : bw) : bw := Write p (SetHeader "Content-T
 Inductive op :=
 | OStatus (c : Z) | OHeader (k v : string) | OCookie (v : string)
 | OWrite (p : string) | OHTML (p : string) | OJSON (p : string)
-| ORedirect (u : string) (c : Z) | ONoContent (c : Z) | OWriteHeader (c : Z).
+| ORedirect (u : string) (c : Z) | ONoContent (c : Z) | OWriteHeader (c : Z)
+| OHTMLWith (p : string) (c : Z)      (* script: $w->html($body, $code)  = SetStatus; WriteHTML *)
+| OFormatted (c : Z) (p : string).    (* success()/error()/format(): writeFormattedResponse = SetStatus; WriteJSON *)
 
 Definition step (b : bw) (o : op) : bw :=
   match o with
@@ -87,6 +89,8 @@ Definition step (b : bw) (o : op) : bw :=
   | ORedirect u c => Redirect u c b
   | ONoContent c => NoContent c b
   | OWriteHeader c => WriteHeader c b
+  | OHTMLWith p c => WriteHTML p (SetStatus c b)
+  | OFormatted c p => WriteJSON p (SetStatus c b)
   end.
 
 Definition init : bw :=
